@@ -126,12 +126,6 @@ for i, x in df.iterrows():
     ),)
 
     for source, expected_abstraction in test_cases:
-        # The rules leave files alone that do not use pandas
-        if performance_pandas.replace_iterrows_itertuples(source) != source:
-            return 1
-
-        source = "import pandas as pd\n" + source
-        expected_abstraction = "import pandas as pd\n" + expected_abstraction
         processed_content = performance_pandas.replace_iterrows_itertuples(source)
         if not testing_infra.check_fixes_equal(
             processed_content, expected_abstraction, clear_paranthesises=True
